@@ -48,17 +48,19 @@ inline void smr_knobs(Rng& r, Program& p, int nthreads, int min_hazards) {
 
 struct GenCfg { int max_threads_quick = 3, max_threads_thorough = 4, max_ops = 5, max_prefill = 3, push_permille = 500; bool deque = false; bool prio = false; bool phased = false; int push_forms = 1, pop_forms = 1; int min_hazards = 4; };
 
-inline void gen_program(Rng& r, Program& p, int tier, const GenCfg& g) {
-    int nth = r.range(2, tier ? g.max_threads_thorough : g.max_threads_quick);
+inline void gen_program(Rng& r, Program& p, int tier, const GenCfg& g0) {
+    GenCfg g = g0; bool c20 = current_prop() == "C20";
+    if (c20) { g.max_threads_quick = g.max_threads_thorough = 1; g.max_ops = 30; }
+    int nth = c20 ? 1 : r.range(2, tier ? g.max_threads_thorough : g.max_threads_quick);
     p.set("prefill", r.below(g.max_prefill + 1));
     smr_knobs(r, p, nth, g.min_hazards);
     p.threads.resize(nth);
     int total = 0;
     for (int t = 0; t < nth; t++) {
         if (t > 0 && r.chance(150)) p.threads[t].start_after = r.below(t);
-        int nops = r.range(1, g.max_ops);
+        int nops = c20 ? r.range(8, g.max_ops) : r.range(1, g.max_ops);
         int bias = r.pick({g.push_permille, g.push_permille, 200, 800});
-        for (int k = 0; k < nops && total < 16; k++, total++) {
+        for (int k = 0; k < nops && total < (c20 ? 30 : 16); k++, total++) {
             bool push = r.chance(bias);
             int kind = push ? PUSH : POP;
             if (g.deque && r.chance(500)) kind = push ? PUSH_FRONT : POP_BACK;
@@ -116,7 +118,7 @@ template <class A> void check(Ctx& ctx) {
                         m.kind == SeqModel::FIFO ? "FIFO" : m.kind == SeqModel::LIFO ? "LIFO" : m.kind == SeqModel::DEQUE ? "deque" : m.kind == SeqModel::PQMAX ? "max-priority-queue" : "bag", describe_history(ctx.hist, opnames, 24).c_str());
 }
 
-inline void tune_default(dsim::Params& p, Rng& r, const Program&, const std::string&) { p.soft_cap = 150000; p.hard_cap = 300000; p.f8_permille = r.pick({0, 0, 5, 30}); p.f6_permille = r.pick({0, 0, 10}); }
+inline void tune_default(dsim::Params& p, Rng& r, const Program&, const std::string& prop) { if (prop == "C20") p.f1_permille = r.pick({0, 20, 100, 200}); p.soft_cap = 150000; p.hard_cap = 300000; p.f8_permille = r.pick({0, 0, 5, 30}); p.f6_permille = r.pick({0, 0, 10}); }
 
 } // namespace seqc
 
